@@ -170,6 +170,10 @@ impl Pager {
         self.header_unchecked_mut().mark_transaction_aborted(txid);
     }
 
+    pub(crate) fn is_transaction_aborted(&self, txid: TransactionId) -> bool {
+        self.header_unchecked().is_transaction_aborted(txid)
+    }
+
     pub(crate) fn get_aborted_transactions(&self) -> Vec<TransactionId> {
         self.header_unchecked().get_aborted_transactions()
     }
